@@ -1,5 +1,5 @@
 """C01: a compiled field returns what composing the user functions returns."""
-from props import enginecorr
+from props import enginecorr, multifield
 
 MODEL_DEPS = ['CheckLib']
 KERNELS = ('StaticHash', 'StaticGraph', 'StaticEdge', 'FunctionEdge', 'ComputableHashBase', 'IdentityEdge', 'ConstantEdge',
@@ -15,4 +15,5 @@ ASSUMPTIONS = ['CPython generator semantics (send / StopIteration) are as modell
 
 def run(ctx):
     r = enginecorr.run(ctx)
-    return enginecorr.summarise(r, ('result',), 'C01')
+    res = enginecorr.summarise(r, ('result',), 'C01')
+    return multifield.add(ctx, res, 'C01')
